@@ -83,6 +83,16 @@ def work(task):
             if b == "dec" and not dl.raw_ok(inv_op, frac_of(res["a"], b), frac_of(c["y"], b)):
                 part.count("compose_skipped_raw_range")
                 continue
+            if b == "dec":
+                s1 = oent["units"][name2idx[res["u"]]]["scale"]
+                s2 = rent["units"][c["v"]]["scale"]
+                S2 = s1 * s2 if inv_op == "mul" else s1 / s2
+                m1 = frac_of(res["a"], b) * s1
+                m2 = frac_of(c["y"], b) * s2
+                M2 = m1 * m2 if inv_op == "mul" else m1 / m2
+                if not dl.result_box_ok(b, M2, S2, lent):
+                    part.count("compose_skipped_scale_or_result_range")
+                    continue
             cases2.append({"inst": [out, inv_op, r, l], "first": c, "first_res": res, "kind": "compose",
                            "u": name2idx[res["u"]], "v": c["v"], "x": res["a"], "y": c["y"],
                            "reqs": [{"op": "bin", "l": out, "o": inv_op, "r": r, "x": res["a"], "u": name2idx[res["u"]], "y": c["y"], "v": c["v"]}]})
